@@ -52,6 +52,8 @@ def menu(c: reg.Country, comp: str, salt: int, tier: str, other_w: int = 0) -> l
         if w > 1:
             items.append(conforming(c, comp, w - 1, salt))
     items += [conforming(c, comp, w + 1, salt), conforming(c, comp, w + 2, salt)]
+    if w == 0:
+        items += ["0", "000", " 0 0 "]  # zeros are characters too: nothing may be dropped silently
     if other_w:
         comb = conforming(c, comp, w, salt) + "".join(DIG[(i + salt) % 10] for i in range(other_w))
         items += [comb, comb + "9", comb + "12"]  # combined width, and one / two beyond it
